@@ -133,9 +133,13 @@ def _render_scfg(scfg):
 
     before = canon.dump(scfg, ordered=True)
     try:
-        src = SCFGRenderer(scfg).render_scfg().source
+        r = SCFGRenderer(scfg)
+        src = r.render_scfg().source
+        same = r.render_scfg().source  # the same renderer object asked for its drawing again
     except Exception as e:
         raise M.Viol(f"D-raise:{type(e).__name__}", f"SCFGRenderer raised {type(e).__name__}: {e}")
+    if same != src:
+        raise M.Viol("D-again", "asking the same renderer object for its drawing a second time gives a different DOT source")
     if canon.dump(scfg, ordered=True) != before:
         raise M.Viol("D-mutates", "rendering changed the graph it was given")
     # a second drawing of the same graph by a fresh renderer is the same text (nothing is consumed or remembered)
@@ -159,6 +163,18 @@ def _eval(col, intg, g, origin):
         col.count("drawings")
         try:
             nt = check_drawing(scfg, _render_scfg(scfg), "scfg") or nt
+            if payload == "ast":
+                # the statements of the blocks are edited in place (what an ast.NodeTransformer pass of the caller does)
+                # and the graph is drawn again: the labels show the statements as they now are
+                for b in M.Flat(scfg).blocks.values():
+                    for stmt in getattr(b, "tree", None) or ():
+                        for node in ast.walk(stmt):
+                            if isinstance(node, ast.Constant) and isinstance(node.value, int) and not isinstance(node.value, bool):
+                                node.value += 1000
+                            elif isinstance(node, ast.Name):
+                                node.id = node.id + "_r"
+                col.count("drawings")
+                check_drawing(scfg, _render_scfg(scfg), "scfg")
         except M.Viol as v:
             col.fail(f"C17:{v.clause}", f"[{stage}/{payload}] {v.msg}", dict(graph=gg.graph_to_json(g), stage=stage, payload=payload), len(g))
     classes = gg.classify(intg)
